@@ -1749,6 +1749,7 @@ class GenericNote(TimedObject):
                 "slur_starts",
                 "tuplet_stops",
                 "tuplet_starts",
+                "fermata",
             ]
         )
 
@@ -2572,6 +2573,12 @@ class Fermata(TimedObject):
         super().__init__()
         # ref(erent) can be a note or a barline
         self.ref = ref
+
+    def replace_refs(self, o_map):
+        # only a referent that is an object of the score is remapped when
+        # cloning (a barline position such as "right" is kept as it is)
+        if isinstance(self.ref, TimedObject):
+            self.ref = o_map.get(self.ref)
 
     def __str__(self):
         return f"{super().__str__()} ref={self.ref}"
